@@ -60,7 +60,7 @@ func genCase(t *rapid.T) Case {
 	if c.Backend == "disk" {
 		// ("corrupt-journal" exists as a fault kind for replays, but is not drawn: LevelDB replays the journal into a table
 		// when the swapped-in store is reopened, so in every flow of the product the journal of a store in force is empty)
-		faults = append(faults, "corrupt-table", "corrupt-table")
+		faults = append(faults, "corrupt-table", "corrupt-table", "table-removed")
 	}
 	c.Fault = rapid.SampledFrom(faults).Draw(t, "fault")
 	if sab := rapid.IntRange(0, 99).Draw(t, "sabotage"); c.Backend == "disk" && (sab == 73 || sab == 37) { // (not an edge value: rapid favours those)
@@ -70,7 +70,7 @@ func genCase(t *rapid.T) Case {
 	}
 	c.N = rapid.IntRange(1, 12).Draw(t, "n")
 	c.Extra = rapid.SampledFrom([]int{0, 0, 1, 2, 3}).Draw(t, "extra")
-	if c.Fault == "corrupt-table" || c.Fault == "corrupt-journal" {
+	if c.Fault == "corrupt-table" || c.Fault == "corrupt-journal" || c.Fault == "table-removed" {
 		c.N = rapid.IntRange(50, 400).Draw(t, "n_big")
 		c.Offset = rapid.IntRange(0, 1<<20).Draw(t, "offset")
 		c.Bytes = rapid.SliceOfN(rapid.Byte(), 1, 4).Draw(t, "flip")
@@ -78,7 +78,7 @@ func genCase(t *rapid.T) Case {
 	seen := map[string]bool{}
 	for len(c.Serials) < c.N {
 		s := gen.NormSerialHex(gen.DrawSerialHex(t, fmt.Sprintf("s%d", len(c.Serials))))
-		if c.Fault == "corrupt-table" || c.Fault == "corrupt-journal" {
+		if c.Fault == "corrupt-table" || c.Fault == "corrupt-journal" || c.Fault == "table-removed" {
 			s = fmt.Sprintf("%s%04x", s[:min(len(s), 30)], len(c.Serials))
 		}
 		if !seen[s] {
@@ -308,10 +308,10 @@ func runCase(c Case, x *ev.Ctx) error {
 		if err := judge("after value damage"); err != nil {
 			return err
 		}
-	case "corrupt-table", "corrupt-journal":
+	case "corrupt-table", "corrupt-journal", "table-removed":
 		ld := live.(*crlstore.LevelDbStore)
 		pattern := "*.log" // the records of a freshly swapped-in list live in the journal until LevelDB compacts it
-		if c.Fault == "corrupt-table" {
+		if c.Fault == "corrupt-table" || c.Fault == "table-removed" {
 			pattern = "*.ldb"
 			if err := ld.Db.CompactRange(util.Range{}); err != nil {
 				return fmt.Errorf("setup: compact: %v", err)
@@ -326,6 +326,9 @@ func runCase(c Case, x *ev.Ctx) error {
 		}
 		sort.Strings(tables)
 		b, _ := os.ReadFile(tables[0])
+		if c.Fault == "table-removed" {
+			b = append([]byte{}, b...) // the file stays intact until the store is open again
+		}
 		if len(b) == 0 {
 			// (journal) LevelDB replayed the journal into a table when the swapped-in store was reopened: nothing to damage
 			x.Class("file-empty/" + c.Fault)
@@ -337,7 +340,9 @@ func runCase(c Case, x *ev.Ctx) error {
 				b[off+i] ^= d | 1
 			}
 		}
-		os.WriteFile(tables[0], b, 0o600)
+		if c.Fault != "table-removed" {
+			os.WriteFile(tables[0], b, 0o600)
+		}
 		// restart on the damaged directory
 		closed = false
 		checker = nil
@@ -353,6 +358,13 @@ func runCase(c Case, x *ev.Ctx) error {
 			x.Class("reopen-failed")
 			x.NonTrivial(fmt.Sprintf("%s|reopen-failed|%d", c.Fault, c.N/50))
 			return nil // clean error at open time: fail closed
+		}
+		if c.Fault == "table-removed" {
+			// the table files vanish after the store was opened and before any of them was read (LevelDB opens tables
+			// lazily): a plain I/O error (no such file), neither "closed" nor "corrupted"
+			for _, t := range tables {
+				os.Remove(t)
+			}
 		}
 		ld2 := realStore(capf2.live[0]).(*crlstore.LevelDbStore)
 		// differential: wherever a raw Get of the key space fails with something else than not-found, the lookup must fail too
